@@ -59,9 +59,38 @@ theorem readClassAttrs_drop_all {avail : Nat} {cfg cfg0 : Cfg} {m0 : Mask} (hc :
         simp [pure_ok] at h; subst h
         exact ih _ _ _ hr'
 
-theorem readFields_drop_all {avail : Nat} {cfg cfg0 : Cfg} (hc : cfg.cls = none) :
+/-- a visitor whose class visitor is absent (`visit_class` broke) or reports `interests.fields = false` receives nothing of
+any field -/
+theorem proj_fields_none {cfg : Cfg} (hd : cfg.cls = none ∨ cfg.fieldsI = false) :
+    (∀ i h, proj cfg (.fieldBegin i h) = none) ∧ (∀ i unk k pay, proj cfg (.fAttr i unk k pay) = none) ∧
+    (∀ i d s, proj cfg (.fieldFlags i d s) = none) ∧ (∀ i, proj cfg (.fieldEnd i) = none) := by
+  rcases hd with hc | hf
+  · refine ⟨?_, ?_, ?_, ?_⟩ <;> intros <;> simp [hc, keepIf]
+  · refine ⟨?_, ?_, ?_, ?_⟩
+    · intro i h; simp [hf, keepIf]
+    · intro i unk k pay; simp only [proj_fAttr]; cases cfg.cls <;> cases cfg.field i <;> simp [hf, keepIf]
+    · intro i d s; simp [hf, keepIf]
+    · intro i; simp [hf, keepIf]
+
+/-- same for the methods and their `Code`s with `interests.methods = false` -/
+theorem proj_methods_none {cfg : Cfg} (hd : cfg.cls = none ∨ cfg.methodsI = false) :
+    (∀ i h, proj cfg (.methodBegin i h) = none) ∧ (∀ i unk k pay, proj cfg (.mAttr i unk k pay) = none) ∧
+    (∀ i d s, proj cfg (.methodFlags i d s) = none) ∧ (∀ i, proj cfg (.methodEnd i) = none) ∧
+    (∀ i, proj cfg (.codeBegin i) = none) ∧ (∀ i, codeMaskOf cfg i = none) := by
+  rcases hd with hc | hf
+  · refine ⟨?_, ?_, ?_, ?_, ?_, ?_⟩ <;> intros <;> simp [hc, keepIf, codeMaskOf]
+  · refine ⟨?_, ?_, ?_, ?_, ?_, ?_⟩
+    · intro i h; simp [hf, keepIf]
+    · intro i unk k pay; simp only [proj_mAttr]; cases cfg.cls <;> cases cfg.method i <;> simp [hf, keepIf]
+    · intro i d s; simp [hf, keepIf]
+    · intro i; simp [hf, keepIf]
+    · intro i; simp only [proj_codeBegin]; cases cfg.cls <;> cases cfg.method i <;> simp [hf, keepIf]
+    · intro i; simp only [codeMaskOf]; cases cfg.cls <;> cases cfg.method i <;> simp [hf]
+
+theorem readFields_drop_all {avail : Nat} {cfg cfg0 : Cfg} (hd : cfg.cls = none ∨ cfg.fieldsI = false) :
     ∀ (fs : List Field) (i p : Nat) (res : Nat × List Ev),
       readFields avail cfg0 i fs p = .ok res → res.2.filterMap (proj cfg) = [] := by
+  obtain ⟨hb, ha, hfl, he⟩ := proj_fields_none hd
   intro fs
   induction fs with
   | nil => intro i p res h; simp [readFields] at h; subst h; rfl
@@ -77,22 +106,24 @@ theorem readFields_drop_all {avail : Nat} {cfg cfg0 : Cfg} (hc : cfg.cls = none)
     have a1 : e1.filterMap (proj cfg) = [] := by
       simp only [readField] at h1
       obtain ⟨q, hq, h1⟩ := bind_ok.mp h1
+      obtain ⟨_, _, h1⟩ := bind_ok.mp h1
       split at h1
       · obtain ⟨q2, hq2, h1⟩ := bind_ok.mp h1
         simp [pure_ok] at h1; obtain ⟨_, rfl⟩ := h1
-        simp [hc, keepIf]
+        simp only [List.filterMap_cons, hb, List.filterMap_nil]
       · obtain ⟨q2, hq2, h1⟩ := bind_ok.mp h1
         obtain ⟨r', hr', h1⟩ := bind_ok.mp h1
         obtain ⟨p3, evs3, d3, sy3⟩ := r'
         simp [pure_ok] at h1; obtain ⟨_, rfl⟩ := h1
-        have hd := readLeafs_evs_drop (proj cfg) (by intro unk k pay; simp [hc]) _ _ _ hr'
-        simp only at hd
-        simp [List.filterMap_append, hc, keepIf, hd]
+        have hd' := readLeafs_evs_drop (proj cfg) (ha i) _ _ _ hr'
+        simp only at hd'
+        simp only [List.filterMap_cons, List.filterMap_append, hb, hfl, he, hd', List.filterMap_nil, List.append_nil]
     simp only [List.filterMap_append, a1, a2, List.append_nil]
 
-theorem readMethods_drop_all {avail : Nat} {cfg cfg0 : Cfg} (hc : cfg.cls = none) :
+theorem readMethods_drop_all {avail : Nat} {cfg cfg0 : Cfg} (hd : cfg.cls = none ∨ cfg.methodsI = false) :
     ∀ (ms : List Method) (i p : Nat) (res : Nat × List Ev),
       readMethods avail cfg0 i ms p = .ok res → res.2.filterMap (proj cfg) = [] := by
+  obtain ⟨hb, ha, hfl, he, hcb, hn⟩ := proj_methods_none hd
   intro ms
   induction ms with
   | nil => intro i p res h; simp [readMethods] at h; subst h; rfl
@@ -108,18 +139,18 @@ theorem readMethods_drop_all {avail : Nat} {cfg cfg0 : Cfg} (hc : cfg.cls = none
     have a1 : e1.filterMap (proj cfg) = [] := by
       simp only [readMethod] at h1
       obtain ⟨q, hq, h1⟩ := bind_ok.mp h1
+      obtain ⟨_, _, h1⟩ := bind_ok.mp h1
       split at h1
       · obtain ⟨q2, hq2, h1⟩ := bind_ok.mp h1
         simp [pure_ok] at h1; obtain ⟨_, rfl⟩ := h1
-        simp [hc, keepIf]
+        simp only [List.filterMap_cons, hb, List.filterMap_nil]
       · obtain ⟨q2, hq2, h1⟩ := bind_ok.mp h1
         obtain ⟨r', hr', h1⟩ := bind_ok.mp h1
         obtain ⟨p3, evs3, d3, sy3⟩ := r'
         simp [pure_ok] at h1; obtain ⟨_, rfl⟩ := h1
-        have hd := readMethodAttrs_drop (cfg := cfg)
-          (by intro unk k pay; simp [hc]) (by simp [hc]) (codeMaskOf_cls_none hc _) _ _ _ hr'
-        simp only at hd
-        simp [List.filterMap_append, hc, keepIf, hd]
+        have hd' := readMethodAttrs_drop (cfg := cfg) (ha i) (hcb i) (hn i) _ _ _ hr'
+        simp only at hd'
+        simp only [List.filterMap_cons, List.filterMap_append, hb, hfl, he, hd', List.filterMap_nil, List.append_nil]
     simp only [List.filterMap_append, a1, a2, List.append_nil]
 
 /-! ## the whole class -/
@@ -131,6 +162,51 @@ theorem framesExact_parts {c : ClassFrame} (h : framesExact c = true) :
   exact ⟨h.1.1, h.1.2, h.2⟩
 
 theorem full_cls : full.cls = some allMask := rfl
+
+theorem full_fieldsI : full.fieldsI = true := rfl
+theorem full_methodsI : full.methodsI = true := rfl
+
+/-- the fields inside `with_pos`: visited and projected, or — `interests.fields = false` — skipped like before `visit_class`
+(`hp2`: that loop succeeded from the same position), ending at the same position with no event -/
+theorem readFieldsI_proj {avail : Nat} {cfg : Cfg} {m : Mask} (hc : cfg.cls = some m)
+    {fs : List Field} {p p2 q2 : Nat} {fevs : List Ev}
+    (hxf : fs.all (fun f => f.attrs.all (leafExact fieldAct)) = true)
+    (hp2 : skipMembers avail (fs.map (fun f => attrLens f.attrs)) p = .ok p2)
+    (h : readFields avail full 0 fs p = .ok (q2, fevs)) :
+    readFieldsI avail cfg fs p = .ok (q2, fevs.filterMap (proj cfg)) := by
+  unfold readFieldsI
+  cases hf : cfg.fieldsI with
+  | true => simpa using readFields_proj hc hf _ _ _ _ _ hxf h
+  | false =>
+    have d2 : fevs.filterMap (proj cfg) = [] := readFields_drop_all (Or.inr hf) _ _ _ _ h
+    have e1 := skipMembers_pos _ _ _ hp2
+    have e2 := readFields_pos _ _ _ _ hxf h
+    rw [fields_sum] at e1
+    simp only at e2
+    have : p2 = q2 := by omega
+    subst this
+    simp [hp2, bind, Except.bind, pure_ok, d2]
+
+/-- the methods inside `with_pos`: read and projected, or — `interests.methods = false` — not read at all -/
+theorem readMethodsI_proj {avail : Nat} {cfg : Cfg} {m : Mask} (hc : cfg.cls = some m)
+    {ms : List Method} {q : Nat} {mevs : List Ev}
+    (hxm : ms.all (fun m => m.attrs.all mattrExact) = true)
+    (h : readMethodsI avail full ms q = .ok mevs) :
+    readMethodsI avail cfg ms q = .ok (mevs.filterMap (proj cfg)) := by
+  unfold readMethodsI at h ⊢
+  simp only [full_methodsI, if_true] at h
+  obtain ⟨q3, hq3, h⟩ := bind_ok.mp h
+  obtain ⟨r3, hr3, h⟩ := bind_ok.mp h
+  obtain ⟨q4, mevs'⟩ := r3
+  simp [pure_ok] at h
+  subst h
+  cases hmi : cfg.methodsI with
+  | true =>
+    have a3 := readMethods_proj hc hmi _ _ _ _ _ hxm hr3
+    simp [hq3, a3, bind, Except.bind, pure_ok]
+  | false =>
+    have d3 : mevs'.filterMap (proj cfg) = [] := readMethods_drop_all (Or.inr hmi) _ _ _ _ hr3
+    simp [pure_ok, d3]
 
 /-- **projection**: whenever the full read of an exactly framed class succeeds, the read with any configuration
 succeeds, consumes the same bytes and delivers `proj cfg` of the full read's events, in the same order -/
@@ -153,25 +229,31 @@ theorem readWith_proj {cfg : Cfg} {c : ClassFrame} {avail n : Nat} {evs : List E
     obtain ⟨q1, hq1, h⟩ := bind_ok.mp h
     obtain ⟨r2, hr2, h⟩ := bind_ok.mp h
     obtain ⟨q2, fevs⟩ := r2
-    obtain ⟨q3, hq3, h⟩ := bind_ok.mp h
-    obtain ⟨r3, hr3, h⟩ := bind_ok.mp h
-    obtain ⟨q4, mevs⟩ := r3
+    obtain ⟨mevs, hr3, h⟩ := bind_ok.mp h
     simp [pure_ok] at h
     obtain ⟨rfl, rfl⟩ := h
     obtain rfl : q1 = p1 := by have := need_ok hp1; have := need_ok hq1; omega
+    simp only [readFieldsI, full_fieldsI, if_true] at hr2
     simp only [readWith, hfs, hok, hp1, hp2, hp3, hp4, bind, Except.bind]
     cases hc : cfg.cls with
     | none =>
       have hs := readClassAttrs_skip _ _ _ _ hxa hr'
       have d1 : cevs.filterMap (proj cfg) = [] := readClassAttrs_drop_all hc _ _ _ _ hr'
-      have d2 : fevs.filterMap (proj cfg) = [] := readFields_drop_all hc _ _ _ _ hr2
-      have d3 : mevs.filterMap (proj cfg) = [] := readMethods_drop_all hc _ _ _ _ hr3
+      have d2 : fevs.filterMap (proj cfg) = [] := readFields_drop_all (Or.inl hc) _ _ _ _ hr2
+      have d3 : mevs.filterMap (proj cfg) = [] := by
+        simp only [readMethodsI, full_methodsI, if_true] at hr3
+        obtain ⟨q3, hq3, hr3⟩ := bind_ok.mp hr3
+        obtain ⟨r3, hr3', hr3⟩ := bind_ok.mp hr3
+        obtain ⟨q4, mevs'⟩ := r3
+        simp [pure_ok] at hr3
+        subst hr3
+        exact readMethods_drop_all (Or.inl hc) _ _ _ _ hr3'
       simp only at hs
       simp [skipAttrs, hp5, hs, bind, Except.bind, pure_ok, List.filterMap_append, hc, keepIf, d1, d2, d3]
     | some m =>
       have a1 := readClassAttrs_proj hc _ {} {} _ _ _ _ _ hxa rfl (by simp) hr'
-      have a2 := readFields_proj hc _ _ _ _ _ hxf hr2
-      have a3 := readMethods_proj hc _ _ _ _ _ hxm hr3
-      simp [hp5, a1, hq1, a2, hq3, a3, bind, Except.bind, pure_ok, List.filterMap_append, hc, keepIf]
+      have a2 := readFieldsI_proj hc hxf hp2 hr2
+      have a3 := readMethodsI_proj hc hxm hr3
+      simp [hp5, a1, hq1, a2, a3, bind, Except.bind, pure_ok, List.filterMap_append, hc, keepIf]
 
 end Visit
